@@ -32,7 +32,8 @@ static void l2_snap(const InterpreterEnv& e, L2Snap& s) {
     __CPROVER_havoc_object(&st); __CPROVER_assume(st.n <= VERIF_STACK_W && st.base <= 1000000000UL); \
     for (size_t i_ = 0; i_ < VERIF_STACK_W; ++i_) __CPROVER_assume(st.w[i_].n <= VERIF_ITEM_CAP); \
     __CPROVER_havoc_object(&scr); __CPROVER_assume(scr.n <= VERIF_SCRIPT_CAP); \
-    InterpreterEnv env(st, scr, nondet_uint(), chk, (SigVersion)nondet_uint(), &err); \
+    unsigned int l2_flags = nondet_uint(); unsigned int l2_sv = nondet_uint(); \
+    InterpreterEnv env(st, scr, l2_flags, chk, (SigVersion)l2_sv, &err); \
     l2_arbitrary(env);
 
 static void l2_arbitrary(InterpreterEnv& env) {
@@ -270,4 +271,31 @@ extern "C" void h_l2_commitment(void) {
         __CPROVER_assert(env.tce == &tce && g_tce_deleted == 0, "step: the commitment continues");
     }
     __CPROVER_assert(g_tce_next_state != (int)TaprootCommitmentEnv::State::Done, "canary: commitment completion reachable");
+}
+// ---- C03 / C08 / C12: the session Instance::setup_environment creates (second half of the function)
+extern "C" void h_l2_setup(void) {
+    verif_stack st; CScript scr, succ; BaseSignatureChecker chk; ScriptError err;
+    __CPROVER_havoc_object(&st); __CPROVER_assume(st.n <= VERIF_STACK_W && st.base <= 1000000000UL);
+    for (size_t i = 0; i < VERIF_STACK_W; ++i) __CPROVER_assume(st.w[i].n <= VERIF_ITEM_CAP);
+    __CPROVER_havoc_object(&scr); __CPROVER_assume(scr.n <= VERIF_SCRIPT_CAP);
+    __CPROVER_havoc_object(&succ); __CPROVER_assume(succ.n <= VERIF_SCRIPT_CAP);
+    unsigned int flags = nondet_uint(); SigVersion sv = (SigVersion)nondet_uint();
+    __CPROVER_assume(sv == SigVersion::BASE || sv == SigVersion::WITNESS_V0 || sv == SigVersion::TAPSCRIPT || sv == SigVersion::TAPROOT);
+    verif_bytes_map pvm; verif_bytes_set pvs; __CPROVER_havoc_object(&pvm); __CPROVER_havoc_object(&pvs);
+    ScriptExecutionData ed; __CPROVER_havoc_object(&ed);
+    TaprootCommitmentEnv tce_obj; TaprootCommitmentEnv* tce = 0; if (nondet_bool()) tce = &tce_obj;
+    InterpreterEnv* env = 0;
+    const int64_t weight0 = ed.m_validation_weight_left; const bool winit0 = ed.m_validation_weight_left_init; const bool annex0 = ed.m_annex_present;
+    bool r = verif_setup_tail(st, scr, flags, &chk, sv, err, succ, pvm, pvs, ed, tce, env);
+    __CPROVER_assert(env != 0 && r == env->operational, "spec: a session is created and the result says whether it is operational");
+    __CPROVER_assert(!r, "canary: an operational session is reachable");
+    __CPROVER_assert(!(r && scr.n == 0 && succ.n != 0), "canary: empty first script with a script to follow is reachable");
+    if (!r) return;
+    __CPROVER_assert(env->done == (scr.n == 0 && succ.n == 0), "spec: the new session is finished at once only when there is nothing to execute - an empty first script with a script to follow (empty scriptSig, then the scriptPubKey) is NOT finished");
+    bool same = env->successor_script.n == succ.n; for (size_t i = 0; i < VERIF_SCRIPT_CAP; ++i) if (i < succ.n && env->successor_script.s.a[i] != succ.s.a[i]) same = false;
+    __CPROVER_assert(same, "spec: the script to follow (scriptPubKey after scriptSig) is handed to the session unchanged");
+    __CPROVER_assert(env->tce == tce, "spec: the commitment checker prepared for a tapscript spend is handed to the session");
+    __CPROVER_assert(env->execdata.m_codeseparator_pos == 0xFFFFFFFFU && env->execdata.m_codeseparator_pos_init, "spec: no code separator has been executed yet (position 0xFFFFFFFF)");
+    __CPROVER_assert(env->execdata.m_validation_weight_left == weight0 && env->execdata.m_validation_weight_left_init == winit0 && env->execdata.m_annex_present == annex0, "spec: signature budget and annex bookkeeping prepared for the input reach the session unchanged");
+    __CPROVER_assert(env->flags == flags && env->sigversion == sv && env->pc == env->script.begin() && env->curr_op_seq == 0, "spec: flags and signature version as configured; the session starts at the first operation with marker 0");
 }
